@@ -204,11 +204,10 @@ for _n in ["plain", "foreign_synth"]:
 
 # --------------------------------------------------------------------------- C06
 PROPS["C06"] = dict(
-    claim=("one step of the real record parser from every slice of 1..3 arbitrary bytes, and from `#` followed by up to 4 arbitrary bytes: never panics (default checks on), returns a strict suffix of its input "
-           "(=> termination and <=1 item per byte for inputs made of such lines, by induction over ProguardRecordIter::next) and yields no string containing a line terminator; "
-           "thorough adds the validation of the from_utf8 / is_numeric models against the real functions"),
-    outside=("longer slices, the four-space member prefix, the sourceFile JSON prefix and the locality step (d) are written (`--tier extra`) but did not finish inside 15-50 min and are in neither registered tier; "
-             "equality of Err items' `line` payload (carries the terminator)"),
+    claim=("one step of the real record parser from every slice of 1..3 arbitrary bytes, and from `#` followed by up to 4 arbitrary bytes (thorough: 1..4 arbitrary bytes, four-space indent + up to 4 bytes): never "
+           "panics (default checks on), returns a strict suffix of its input (=> termination and <=1 item per byte, by induction over ProguardRecordIter::next) and yields no string containing a line terminator; "
+           "thorough adds locality on every 3-byte slice (the record depends only on its first line and parsing resumes right after it) and the validation of the from_utf8 / is_numeric models against the real functions"),
+    outside=("longer slices, the sourceFile JSON prefix and locality on longer slices are written (`--tier extra`) but did not finish inside 15-50 min; equality of Err items' `line` payload (carries the terminator)"),
     assumptions=["std models (each proved equal to the real function by an s_* harness): core::str::from_utf8 -> table-driven validator; char::is_numeric -> exact Latin-1 table; memchr/memrchr -> byte loops"],
 )
 _c06 = dict(functions=["mapping::parse_proguard_record", "parse_proguard_header", "parse_proguard_field_or_method", "parse_proguard_class", "parse_usize", "parse_until*", "split_line", "consume_leading_newlines"],
@@ -280,11 +279,12 @@ H("C19", "mapping", "c19_is_valid_window", timeout=2400, what="is_valid == 50-it
 
 # --------------------------------------------------------------------------- C05
 PROPS["C05"] = dict(
-    claim=("in the registered tiers: the header template `#`+3-character key parses, through the real record parser and through try_parse, to a Header record whose key is exactly the hole slice and no value "
-           "(parts compared by pointer and length). The other grammar templates (class, field, method x {no range, s:e:} x {no class, cls.} x {-, :os, :os:oe} x terminators, sourceFile JSON, the documented "
-           "malformed lines, parse_usize on 20 digits) are written and runnable with `./check C05 --tier extra`, but each needs 5-50 min of CBMC time, several did not finish inside 50 min, and they are in neither registered tier"),
-    outside=("every template other than `# key` (extra tier only, DESIGN.md section 2b); identifiers longer than 3 symbolic characters, numbers longer than 3 digits inside a full line, non-ASCII identifier characters; "
-             "the usable-range rule itself is additionally assumed (not decided) by the C01 kernels"),
+    claim=("grammar templates with symbolic holes (identifier characters from the property's alphabet, digits) through the real record parser and through try_parse: the record's components are exactly the hole "
+           "slices (pointer and length). Quick: header `#key` and `# key: value`+LF. Thorough adds: field line + LF, and the malformed lines `missing return type` and `missing arrow` (reported as errors carrying "
+           "exactly the offending line, parsing resumes after it). The remaining templates (class, method x {range} x {class} x {:os,:os:oe}, sourceFile JSON, other malformed lines, parse_usize on 20 digits) are "
+           "written and runnable with `./check C05 --tier extra`, but ran out of memory / time (24 GB, 50 min) or ended undetermined, and are in neither registered tier"),
+    outside=("class and method templates (extra tier only, DESIGN.md section 2b); identifiers longer than 3 symbolic characters, numbers longer than 3 digits inside a full line, non-ASCII identifier characters; "
+             "the usable-range rule itself is assumed (not decided) by the C01 kernels"),
     assumptions=["std models (each proved equal to the real function by an s_* harness): core::str::from_utf8, char::is_numeric, memchr/memrchr"],
 )
 _c05 = dict(functions=["mapping::parse_proguard_record", "ProguardRecord::try_parse", "parse_proguard_header", "parse_proguard_field_or_method", "parse_proguard_class", "parse_usize", "parse_prefix", "parse_until*"],
